@@ -211,9 +211,6 @@ MUTANTS = [
             return self.json_compat_obj_decode_helper(data_type.validator, obj)
         else:
             return None"""),
-    ('c06-string-pattern-search', 'C06', 'stone/backends/python_rsrc/stone_validators.py',
-     """                self.pattern_re = re.compile(r"\\A(?:" + pattern + r")\\Z")""",
-     """                self.pattern_re = re.compile(r"(?:" + pattern + r")\\Z")"""),
     # ---- C07 ------------------------------------------------------------------------
     ('c07-lenient-rejects-unknown-fields', 'C07', 'stone/backends/python_rsrc/stone_serializers.py',
      """        if self.strict:
@@ -251,7 +248,7 @@ MUTANTS = [
             return self.default""",
      """        if self.default is not NO_DEFAULT and not self.user_defined:
             return self.default"""),
-    ('c07-string-tag-no-catch-all', 'C07', 'stone/backends/python_rsrc/stone_serializers.py',
+    ('c06-string-tag-no-catch-all', 'C06', 'stone/backends/python_rsrc/stone_serializers.py',
      """            elif not self.strict and data_type.definition._catch_all:
                 tag = data_type.definition._catch_all
             else:
